@@ -236,6 +236,12 @@ func checkCmd(args []string) {
 	if *tier == "thorough" {
 		runWitnesses(*prop, kf)
 	}
+	if *tier == "quick" && code == 0 && time.Since(t0) < 45*time.Second {
+		// vacuity guard of the whole pipeline: one must-fail canary from the self-test corpus on every run
+		if c := quickCanary(*prop, pc, kf, seed); c != 0 {
+			code = c
+		}
+	}
 	if *tier == "thorough" && code == 0 {
 		code = selftest(*prop, pc, kf, seed)
 	}
@@ -268,7 +274,7 @@ func report(id string, pc *PropConfig, res *checkResult, tier string, seed int, 
 	byBackend := map[string]int{}
 	var solverSecs float64
 	nObl, nDis, nVac := 0, 0, 0
-	var viols []*vc.Obligation
+	var viols, vacFailed []*vc.Obligation
 	var kfLines []string
 	var samples []any
 	present := map[string]bool{}
@@ -278,8 +284,7 @@ func report(id string, pc *PropConfig, res *checkResult, tier string, seed int, 
 		if ob.ExpectSat {
 			nVac++
 			if ob.Result.Status == "unsat" {
-				fmt.Printf("ENGINE ERROR: inconsistent assumptions: %s is unsatisfiable (%s)\n", ob.Name, ob.Result.File)
-				return 2
+				vacFailed = append(vacFailed, ob)
 			}
 			continue
 		}
@@ -304,6 +309,14 @@ func report(id string, pc *PropConfig, res *checkResult, tier string, seed int, 
 		if verbose {
 			fmt.Printf("  %-7s %-7s %5.2fs %s [%s]\n", ob.Result.Status, ob.Result.Backend, ob.Result.Seconds, ob.Name, ob.Pos)
 		}
+	}
+	// an unsatisfiable path with every obligation discharged means inconsistent assumptions (contracts or engine);
+	// after a failed obligation it is only the usual consequence of assuming the failed goal downstream
+	if len(viols) == 0 && len(vacFailed) > 0 {
+		for _, ob := range vacFailed {
+			fmt.Printf("ENGINE ERROR: inconsistent assumptions: %s is unsatisfiable (%s)\n", ob.Name, ob.Result.File)
+		}
+		return 2
 	}
 	// vacuity of the whole check
 	if nObl < pc.MinObl {
